@@ -125,15 +125,17 @@ def run(ctx):
                               coverage=(thorough and cfg == "TendermintAbs_f1c1.cfg"))
             if "coverage" in r:
                 vlib.require_actions_covered(r)
-        r = ctx.tlc_check("consensus", "MCTendermint.tla",
-                          "Tendermint_proc_thorough.cfg" if thorough else "Tendermint_proc_quick.cfg",
-                          timeout=2400, coverage=thorough)
+        # vacuity is checked (thorough) on the small configuration; the large one runs without coverage
+        r = ctx.tlc_check("consensus", "MCTendermint.tla", "Tendermint_proc_quick.cfg", timeout=2400,
+                          coverage=thorough)
         if "coverage" in r:
             vlib.require_actions_covered(r)
+        if thorough:
+            ctx.tlc_check("consensus", "MCTendermint.tla", "Tendermint_proc_thorough.cfg", timeout=2400)
 
     # ------------------------------------------------------------------ replay (spec -> code)
     if not only or "replay" in only:
-        nruns = {"n4": 10 if thorough else 2, "n7": 6 if thorough else 1, "n1": 12 if thorough else 3}
+        nruns = {"n4": 8 if thorough else 2, "n7": 6 if thorough else 1, "n1": 10 if thorough else 3}
         per_run = 160 if thorough else 50
         jobs = [(name, i) for name in ("n4", "n7", "n1") for i in range(nruns[name])]
 
